@@ -430,9 +430,61 @@ class Rewriter:
                 continue
             return b
 
+    # R13 ------------------------------------------------------------------------------------
+    def desugar_combinators(self, b):
+        kinds = self.cfg.get('desugar', {})
+        if not kinds:
+            return b
+        guard = 0
+        while True:
+            guard += 1
+            if guard > 50:
+                raise ExtractError('R13 does not terminate')
+            mm = mask(b)
+            m = re.search(r'\.(and_then|map|map_err|unwrap_or_else|unwrap_or)\s*\(', mm)
+            if not m:
+                return b
+            name = m.group(1)
+            o = m.end() - 1
+            c = match_close(mm, o)
+            arg = b[o + 1:c].strip()
+            rs = receiver_start(mm, m.start())
+            recv = b[rs:m.start()].strip()
+            ty = kinds.get(name)
+            cm = re.match(r'^(?:move\s+)?\|\s*([^|]*?)\s*\|\s*(.*)$', arg, re.S)
+            if name == 'unwrap_or':
+                if ty != 'option':
+                    raise ExtractError('R13: unwrap_or on unknown type')
+                rep = 'match %s { Some(v__) => v__, None => %s }' % (recv, arg)
+            elif cm:
+                pat, body = cm.group(1), cm.group(2).strip()
+                pat = pat.split(':')[0].strip() or '_'
+                if pat == '_':
+                    pat = '_e__'
+                if name == 'and_then' and ty == 'option':
+                    rep = 'match %s { Some(%s) => %s, None => None }' % (recv, pat, body)
+                elif name == 'map' and ty == 'option':
+                    rep = 'match %s { Some(%s) => Some(%s), None => None }' % (recv, pat, body)
+                elif name == 'map_err' and ty == 'result':
+                    rep = 'match %s { Ok(v__) => Ok(v__), Err(%s) => Err(%s) }' % (recv, pat, body)
+                elif name == 'unwrap_or_else' and ty == 'result':
+                    rep = 'match %s { Ok(v__) => v__, Err(%s) => %s }' % (recv, pat, body)
+                elif name == 'unwrap_or_else' and ty == 'option':
+                    rep = 'match %s { Some(v__) => v__, None => %s }' % (recv, body)
+                else:
+                    raise ExtractError('R13: %s on undeclared receiver type' % name)
+            elif name == 'unwrap_or_else' and ty == 'option' and re.match(r'^\w+$', arg):
+                rep = 'match %s { Some(v__) => v__, None => %s() }' % (recv, arg)
+            else:
+                raise ExtractError('R13: cannot desugar .%s(%s)' % (name, arg[:40]))
+            b = b[:rs] + '(' + rep + ')' + b[c + 1:]
+            self.fired('R13:' + name)
+
     # the whole pipeline ----------------------------------------------------------------------
     def rewrite(self, body):
         b = strip_comments(body, mask(body))
+        # R0: join method chains split over lines (`x\n    .f()` -> `x.f()`): layout only
+        b = self.sub('R0:join-chains', r'\s*\n\s*\.(?=[A-Za-z_])', '.', b)
         b = self.macros(b)                                                   # R6
         b = self.sub('R5:unsafe-block', r'\bunsafe\s*\{', '{', b)            # R5
         kind = self.cfg.get('kind', 'bump')
@@ -474,10 +526,14 @@ class Rewriter:
         b = self.method_to_fn(b, 'add', 'ptr_add', 'R7:ptr-add')
         b = self.method_to_fn(b, 'is_null', 'ptr_is_null', 'R2:is_null')
         b = self.sub('R8:layout-new', r'\bLayout::new::<\s*ChunkFooter\s*>\(\)', 'FOOTER_LAYOUT()', b)
+        b = self.sub('R1:phantom', r'\b\w+\s*:\s*PhantomData\s*,?', '', b)
+        b = self.method_to_fn(b, 'count', 'raw_iter_count', 'R13:iter-count', extra_first='w')
         b = self.sub('R8:size_of', r'\bmem::size_of::<\s*ChunkFooter\s*>\(\)', 'FOOTER_SIZE', b)
+        # R13: std Option/Result combinators with closure arguments are replaced by their definition (a `match`)
+        b = self.desugar_combinators(b)
         # R12: thread the world parameter through calls of functions that take it
         for f in self.cfg.get('w_funcs', []):
             b = self.map_calls(b, r'(?:\bself\.|\bSelf::|(?<![\w.:]))' + f + r'(?:::<[^>]*>)?',
-                               lambda m, a: m.group(0).rstrip('(').rstrip() + '(' + ', '.join(['w'] + a) + ')',
+                               lambda m, a: None if (a and a[0] == 'w') else m.group(0).rstrip('(').rstrip() + '(' + ', '.join(['w'] + a) + ')',
                                'R12:thread-world')
         return b
